@@ -1084,3 +1084,50 @@ func (g *Gen) structExpr(ty *Ty, d int) *X {
 	}
 	return g.Leaf(ty)
 }
+
+// ---- exported entry points for checks that assemble their own shapes (C18, C06, C17)
+
+func (g *Gen) AnySeq(d int) *X    { return g.anySeq(d) }
+func (g *Gen) Bool(d int) *X      { return g.boolean(d) }
+func (g *Gen) Str(d int) *X       { return g.str(d) }
+func (g *Gen) StaticInt(d int) *X { return g.staticInt(d) }
+func (g *Gen) AnyIntKind() Kind   { return g.anyIntKind() }
+
+// Body builds a closure body of type ty whose `#` ranges over elements of type elem (pushed on top of the
+// current closure context).
+func (g *Gen) Body(elem, ty *Ty, d int) *X {
+	saved := g.Clos
+	g.Clos = append(append([]*Ty{}, g.Clos...), elem)
+	if len(g.Clos) > g.MaxClos {
+		d = 0
+	}
+	b := g.Expr(ty, d)
+	g.Clos = saved
+	return b
+}
+
+// WithClos runs f with the closure context extended by elem.
+func (g *Gen) WithClos(elem *Ty, f func()) {
+	saved := g.Clos
+	g.Clos = append(append([]*Ty{}, g.Clos...), elem)
+	f()
+	g.Clos = saved
+}
+
+// ClosDepth is the deepest nesting of builtin closures in x.
+func ClosDepth(x *X) int {
+	if x == nil {
+		return 0
+	}
+	d := 0
+	for i, a := range x.A {
+		ad := ClosDepth(a)
+		if x.K == "builtin" && i == 1 {
+			ad++
+		}
+		if ad > d {
+			d = ad
+		}
+	}
+	return d
+}
